@@ -1,1 +1,136 @@
-fn main() { vh::hello(); }
+//! vh <command> ... : see usage().
+use serde_json::{json, Value};
+use std::io::BufRead;
+use vh::common::*;
+use vh::order::*;
+
+fn usage() -> ! {
+    eprintln!("usage: vh replay <select|evaluator|evalv|merge> <lines.ndjson> <report.json> [seed]\n       vh replay-arb <lines.ndjson> <trace.ndjson> [seed]\n       vh drive <driver> <seed> <n> <trace.ndjson> [opts]\n       vh explore <seed> <lists> <maxn> <trace.ndjson> <report.json>");
+    std::process::exit(2)
+}
+
+fn read_lines(path: &str) -> Vec<Value> {
+    let f = std::fs::File::open(path).expect("open input");
+    std::io::BufReader::new(f)
+        .lines()
+        .map(|l| l.unwrap())
+        .filter(|l| !l.trim().is_empty())
+        .map(|l| serde_json::from_str(&l).expect("bad json line"))
+        .collect()
+}
+
+fn main() {
+    quiet_panics();
+    let a: Vec<String> = std::env::args().collect();
+    if a.len() < 2 {
+        usage();
+    }
+    let seed_at = |i: usize| a.get(i).map(|s| s.parse::<u64>().expect("seed")).unwrap_or(0);
+    match a[1].as_str() {
+        "replay" => {
+            if a.len() < 5 {
+                usage();
+            }
+            let lines = read_lines(&a[3]);
+            let seed = seed_at(5);
+            let rep = match a[2].as_str() {
+                "select" => replay_select(&lines, seed),
+                "evaluator" => replay_evaluator(&lines, seed),
+                "evalv" => replay_evalv(&lines, seed),
+                "merge" => replay_merge(&lines, seed),
+                k => vh::dispatch::replay(k, &lines, seed),
+            };
+            std::fs::write(&a[4], serde_json::to_string_pretty(&rep.to_json()).unwrap()).unwrap();
+        }
+        "replay-arb" => {
+            let lines = read_lines(&a[2]);
+            let mut sink = Sink::create(&a[3]);
+            let n = replay_arb(&lines, seed_at(4), &mut sink);
+            sink.finish();
+            println!("{}", json!({"events": n}));
+        }
+        "drive" => {
+            if a.len() < 6 {
+                usage();
+            }
+            let seed: u64 = a[3].parse().expect("seed");
+            let n: usize = a[4].parse().expect("n");
+            let mut sink = Sink::create(&a[5]);
+            let extra = a.get(6).map(|s| s.as_str()).unwrap_or("");
+            match a[2].as_str() {
+                "select" => drive_select(seed, n, &mut sink),
+                "evaluator" => drive_evaluator(seed, n, extra != "nonan", &mut sink),
+                "evalv" => drive_evalv(seed, n, extra != "nonan", &mut sink),
+                "merge" => drive_merge(seed, n, &mut sink),
+                "arb" => drive_arb(seed, n, &mut sink),
+                k => vh::dispatch::drive(k, seed, n, extra, &mut sink),
+            }
+            let n = sink.finish();
+            println!("{}", json!({"events": n}));
+        }
+        "explore" => {
+            // fixpoint exploration of implementation evaluator states for TLC-enumerated or random ends
+            let seed: u64 = a[2].parse().unwrap();
+            let lists: usize = a[3].parse().unwrap();
+            let maxn: usize = a[4].parse().unwrap();
+            let mut sink = Sink::create(&a[5]);
+            let mut rng = Rng::new(seed);
+            let (mut st, mut tr, mut closed_all) = (0usize, 0usize, true);
+            let mut samples = vec![];
+            // deterministic small lists first (all order types of <= maxn ends incl. duplicates), under two embeddings
+            let mut all: Vec<Vec<f64>> = vec![];
+            for n in 1..=maxn {
+                let mut idx = vec![0usize; n];
+                loop {
+                    if idx.windows(2).all(|w| w[0] <= w[1]) {
+                        all.push(idx.iter().map(|&i| i as f64).collect());
+                        all.push(idx.iter().map(|&i| { let mut x = 1.0f64; for _ in 0..i { x = x.next_up(); } x }).collect());
+                    }
+                    let mut k = n;
+                    loop {
+                        if k == 0 { break; }
+                        k -= 1;
+                        idx[k] += 1;
+                        if idx[k] < maxn { break; }
+                        idx[k] = 0;
+                        if k == 0 { k = usize::MAX; break; }
+                    }
+                    if k == usize::MAX { break; }
+                }
+            }
+            for _ in 0..lists {
+                let n = 1 + rng.below(maxn as u64 + 2) as usize;
+                all.push(random_ends(&mut rng, n));
+            }
+            for ends in &all {
+                let (s, t, c) = explore_evaluator(ends, true, &mut sink, 4000);
+                st += s;
+                tr += t;
+                closed_all &= c;
+                if samples.len() < 3 && ends.len() >= 3 {
+                    samples.push(json!({"ends": ends.iter().map(|&e| hex(e)).collect::<Vec<_>>(), "impl_states": s, "transitions": t, "closed": c}));
+                }
+            }
+            let ev = sink.finish();
+            std::fs::write(&a[6], serde_json::to_string(&json!({"lists": all.len(), "impl_states": st, "transitions": tr, "closed": closed_all, "events": ev, "samples": samples})).unwrap()).unwrap();
+        }
+        "histories" => {
+            // hook-free: all histories of length <= depth over the alphabet for small lists
+            let depth: usize = a[2].parse().unwrap();
+            let maxn: usize = a[3].parse().unwrap();
+            let mut sink = Sink::create(&a[4]);
+            let mut count = 0;
+            for n in 1..=maxn {
+                for dup in [false, true] {
+                    let ends: Vec<f64> = (0..n).map(|i| if dup && i > 0 { (i - 1).max(1) as f64 } else { i as f64 }).collect();
+                    let mut e = ends.clone();
+                    e.sort_by(|a, b| a.partial_cmp(b).unwrap());
+                    count += bounded_histories(&e, depth, true, &mut sink);
+                }
+            }
+            let ev = sink.finish();
+            println!("{}", json!({"histories": count, "events": ev}));
+        }
+        _ => usage(),
+    }
+}
